@@ -105,3 +105,28 @@ def data_items(case):
     if items is not None:
         items = [None if it == Empty.value else it for it in items]
     return {'compiled': comp, 'verbatim': items}
+
+
+def observe(case):
+    """{texts: [t0, t1, ...], levels, debug?, max_ticks?}: the texts are compiled and run ONE AFTER THE
+    OTHER in this process, in the given order (so state the compiler keeps between compilations is
+    exercised).  Per level, per text: verdict key, digest of sections 1-4, the printed text, the
+    digest of the whole device trace, the outcome."""
+    import hashlib
+    out = []
+    for level in case.get('levels', [0, 2]):
+        row = []
+        for t in case['texts']:
+            v, b = verdict(t, level, bool(case.get('debug')))
+            r = {'v': vkey(v)}
+            if v['ok']:
+                s = cut_sections(b)
+                r['sec'] = [hashlib.sha1(s.get(k, b'')).hexdigest()[:16] for k in (1, 2, 3, 4)]
+                tr = trace(b, None, case.get('max_ticks', 20000))
+                r['out'] = ''.join(''.join(map(chr, e[1])) for e in tr['events'] if e[0] == 'terminal_print')
+                r['trace'] = hashlib.sha1(repr(tr).encode()).hexdigest()[:16]
+                r['outcome'] = tr['outcome']
+                r['status'] = tr['status']
+            row.append(r)
+        out.append({'level': level, 'texts': row})
+    return out
